@@ -6,7 +6,9 @@ pub mod common;
 pub mod nd;
 pub mod script;
 
+pub mod c01_quiescence;
 pub mod c02_arity;
+pub mod c05_hosting;
 pub mod c06_cancel;
 pub mod c07_done;
 pub mod c08_threads;
@@ -81,6 +83,14 @@ pub const HARNESSES: &[(&str, fn())] = &[
     ("c07_join_handle_wakes", c07_done::c07_join_handle_wakes),
     ("c07_two_woken_tasks", c07_done::c07_two_woken_tasks),
     ("c07_spawn_abort_join", c07_done::c07_spawn_abort_join),
+    ("c01_settle_quiescent_a", c01_quiescence::c01_settle_quiescent_a),
+    ("c01_settle_quiescent_b", c01_quiescence::c01_settle_quiescent_b),
+    ("c01_stream_handover", c01_quiescence::c01_stream_handover),
+    ("c01_run_all_quiescent", c01_quiescence::c01_run_all_quiescent),
+    ("c05_hosting_a", c05_hosting::c05_hosting_a),
+    ("c05_hosting_b", c05_hosting::c05_hosting_b),
+    ("c05_hosting_deep_a", c05_hosting::c05_hosting_deep_a),
+    ("c05_hosting_deep_b", c05_hosting::c05_hosting_deep_b),
     ("c08_evict_race_q1", c08_threads::c08_evict_race_q1),
     ("c08_evict_race_q2", c08_threads::c08_evict_race_q2),
     ("c08_evict_race_t1", c08_threads::c08_evict_race_t1),
